@@ -219,7 +219,10 @@ where
     #[allow(clippy::should_implement_trait)]
     #[inline]
     pub fn next(&mut self) -> Option<Result<(&mut R, O), E>> {
-        self.done_recv.recv().unwrap().map(move |result| {
+        // A closed channel (the reader thread terminated without sending the end marker,
+        // e.g. because the reader initialization failed) is treated like the end marker.
+        // The error is then returned when the reader thread is joined.
+        self.done_recv.recv().unwrap_or(None).map(move |result| {
             match result {
                 Ok((r, o)) => {
                     let prev_rset = ::std::mem::replace(&mut self.current_recordset, r);
